@@ -2249,10 +2249,10 @@ As a workaround use x.as_expr() %s y.as_expr()""" % op)
                 # by trying to avoid inf when number overflows float.
 
                 if isinstance(arg, complex):
-                    if arg.real > 500:
-                        arg = 500 + 1j * arg.imag
-                elif arg > 500:
-                    arg = 500
+                    if arg.real > 709:
+                        arg = 709 + 1j * arg.imag
+                elif arg > 709:
+                    arg = 709
 
                 return np.exp(arg)
 
